@@ -2,6 +2,7 @@ SPECIFICATION TSpec
 CONSTANTS
   MaxScales = 4
   MaxLen = 64
+  RescaleOnSameList = TRUE
   KeepCallersList = FALSE
   ShareListsOnCopy = FALSE
   Doms = {"dA", "dB", "dC"}
